@@ -1,2 +1,101 @@
+/* ops_bit.c — C10 operations: mpn logic, popcount, hamdist, scan; mpz bitwise functions. */
 #include "common.h"
-const op_t ops_bit[] = { {NULL, NULL} };
+
+typedef void (*lfn)(mp_ptr, mp_srcptr, mp_srcptr, mp_size_t);
+/* op n U V ovl (0 separate, 1 rp=up, 2 rp=vp) */
+static void do_logic(char **argv, lfn f)
+{
+  mp_size_t n = arg_l(argv[1]); int ovl = (int)arg_l(argv[4]);
+  mp_ptr up = gbuf_alloc(n), vp = gbuf_alloc(n), rp = gbuf_alloc(n);
+  parse_limbs(argv[2], up, n); parse_limbs(argv[3], vp, n);
+  mp_ptr r = ovl == 1 ? up : ovl == 2 ? vp : rp;
+  f(r, up, vp, n);
+  out_limbs(r, n);
+  if (!gbuf_ok(up, n) || !gbuf_ok(vp, n) || !gbuf_ok(rp, n)) outs("REDZONE");
+  gbuf_free(up); gbuf_free(vp); gbuf_free(rp);
+}
+/* gmp-impl.h turns mpn_and_n etc. into inline macros for the library's own use; the
+   public entry points are the functions __gmpn_and_n ... of mpn/generic/and_n.c ... */
+#define LOGIC(name) void __gmpn_##name(mp_ptr, mp_srcptr, mp_srcptr, mp_size_t); \
+  static void op_##name(int c, char **v) { (void)c; do_logic(v, __gmpn_##name); }
+LOGIC(and_n) LOGIC(andn_n) LOGIC(ior_n) LOGIC(iorn_n) LOGIC(nand_n) LOGIC(nior_n) LOGIC(xor_n) LOGIC(xnor_n)
+
+static void op_popcount(int argc, char **argv)
+{
+  (void)argc; mp_size_t n = arg_l(argv[1]); mp_ptr up = gbuf_alloc(n);
+  parse_limbs(argv[2], up, n); outul(mpn_popcount(up, n)); gbuf_free(up);
+}
+static void op_hamdist(int argc, char **argv)
+{
+  (void)argc; mp_size_t n = arg_l(argv[1]); mp_ptr up = gbuf_alloc(n), vp = gbuf_alloc(n);
+  parse_limbs(argv[2], up, n); parse_limbs(argv[3], vp, n);
+  outul(mpn_hamdist(up, vp, n)); gbuf_free(up); gbuf_free(vp);
+}
+/* mpn_scan1 n U start / mpn_scan0 n U start  (the generator guarantees a hit inside {up,n}) */
+static void op_nscan1(int argc, char **argv)
+{
+  (void)argc; mp_size_t n = arg_l(argv[1]); mp_ptr up = gbuf_alloc(n);
+  parse_limbs(argv[2], up, n); outul(mpn_scan1(up, arg_ul(argv[3]))); gbuf_free(up);
+}
+static void op_nscan0(int argc, char **argv)
+{
+  (void)argc; mp_size_t n = arg_l(argv[1]); mp_ptr up = gbuf_alloc(n);
+  parse_limbs(argv[2], up, n); outul(mpn_scan0(up, arg_ul(argv[3]))); gbuf_free(up);
+}
+
+/* mpz binary logic: U V alias (0 none, 1 w=u, 2 w=v, 3 u=v, 4 w=u=v) */
+typedef void (*zfn3)(mpz_ptr, mpz_srcptr, mpz_srcptr);
+static void do_z3(char **argv, zfn3 f)
+{
+  mpz_t u, v, w, u0, v0; int al = (int)arg_l(argv[3]);
+  parse_z(argv[1], u); parse_z(argv[2], v); mpz_init(w); mpz_realloc2(w, 1);
+  mpz_init_set(u0, u); mpz_init_set(v0, v);
+  mpz_ptr pu = u, pv = v, pw = w;
+  if (al == 1) pw = u; else if (al == 2) pw = v; else if (al == 3) pv = u; else if (al == 4) { pv = u; pw = u; }
+  f(pw, pu, pv);
+  out_z(pw);
+  if (pw != u && mpz_cmp(u, u0) != 0) outs("SRCMOD");
+  if (pw != v && pv == v && mpz_cmp(v, v0) != 0) outs("SRCMOD");
+  mpz_clear(u); mpz_clear(v); mpz_clear(w); mpz_clear(u0); mpz_clear(v0);
+}
+static void op_zand(int c, char **v) { (void)c; do_z3(v, mpz_and); }
+static void op_zior(int c, char **v) { (void)c; do_z3(v, mpz_ior); }
+static void op_zxor(int c, char **v) { (void)c; do_z3(v, mpz_xor); }
+static void op_zcom(int argc, char **argv)
+{
+  (void)argc; mpz_t u, w; int al = (int)arg_l(argv[2]);
+  parse_z(argv[1], u); mpz_init(w); mpz_realloc2(w, 1);
+  mpz_ptr pw = al ? u : w; mpz_com(pw, u); out_z(pw); mpz_clear(u); mpz_clear(w);
+}
+/* in-place bit operations: U k ; the variable is first shrunk to its minimal allocation */
+typedef void (*zbit)(mpz_ptr, mp_bitcnt_t);
+static void do_zbit(char **argv, zbit f)
+{
+  mpz_t u; parse_z(argv[1], u);
+  mpz_realloc2(u, (ABSIZ(u) ? ABSIZ(u) : 1) * GMP_NUMB_BITS);
+  f(u, arg_ul(argv[2])); out_z(u); mpz_clear(u);
+}
+static void op_zsetbit(int c, char **v) { (void)c; do_zbit(v, mpz_setbit); }
+static void op_zclrbit(int c, char **v) { (void)c; do_zbit(v, mpz_clrbit); }
+static void op_zcombit(int c, char **v) { (void)c; do_zbit(v, mpz_combit); }
+static void op_ztstbit(int argc, char **argv)
+{ (void)argc; mpz_t u; parse_z(argv[1], u); outl(mpz_tstbit(u, arg_ul(argv[2]))); mpz_clear(u); }
+static void op_zscan1(int argc, char **argv)
+{ (void)argc; mpz_t u; parse_z(argv[1], u); outul(mpz_scan1(u, arg_ul(argv[2]))); mpz_clear(u); }
+static void op_zscan0(int argc, char **argv)
+{ (void)argc; mpz_t u; parse_z(argv[1], u); outul(mpz_scan0(u, arg_ul(argv[2]))); mpz_clear(u); }
+static void op_zpopcount(int argc, char **argv)
+{ (void)argc; mpz_t u; parse_z(argv[1], u); outul(mpz_popcount(u)); mpz_clear(u); }
+static void op_zhamdist(int argc, char **argv)
+{ (void)argc; mpz_t u, v; parse_z(argv[1], u); parse_z(argv[2], v);
+  if (arg_l(argv[3])) outul(mpz_hamdist(u, u)); else outul(mpz_hamdist(u, v)); mpz_clear(u); mpz_clear(v); }
+
+const op_t ops_bit[] = {
+  {"mpn_and_n", op_and_n}, {"mpn_andn_n", op_andn_n}, {"mpn_ior_n", op_ior_n}, {"mpn_iorn_n", op_iorn_n},
+  {"mpn_nand_n", op_nand_n}, {"mpn_nior_n", op_nior_n}, {"mpn_xor_n", op_xor_n}, {"mpn_xnor_n", op_xnor_n},
+  {"mpn_popcount", op_popcount}, {"mpn_hamdist", op_hamdist}, {"mpn_scan1", op_nscan1}, {"mpn_scan0", op_nscan0},
+  {"mpz_and", op_zand}, {"mpz_ior", op_zior}, {"mpz_xor", op_zxor}, {"mpz_com", op_zcom},
+  {"mpz_setbit", op_zsetbit}, {"mpz_clrbit", op_zclrbit}, {"mpz_combit", op_zcombit}, {"mpz_tstbit", op_ztstbit},
+  {"mpz_scan1", op_zscan1}, {"mpz_scan0", op_zscan0}, {"mpz_popcount", op_zpopcount}, {"mpz_hamdist", op_zhamdist},
+  {NULL, NULL}
+};
